@@ -251,6 +251,9 @@ func Accepts(s *ref.State, op Op, govAuthority string) (bool, string) {
 		if !coinsValid(op.CreationFee) || !coinsValid(op.BidFee) {
 			return false, "fee-invalid"
 		}
+		if op.ExtPeriod > 3650 { // documented maximum of the extended period (days)
+			return false, "period-too-large"
+		}
 		return true, "ok"
 	}
 	return false, "unknown-op"
@@ -496,6 +499,9 @@ func Probes(st *ref.State, pairs bool) []Op {
 		{Authority: "gov", CreationFee: "2bcoin", BidFee: "1bcoin,1bcoin", ExtPeriod: 1, Tag: "bid_fee=duplicate"},
 		{Authority: "gov", CreationFee: "2bcoin", BidFee: "-1bcoin", ExtPeriod: 1, Tag: "bid_fee=negative"},
 		{Authority: "gov", CreationFee: "2b", BidFee: "", ExtPeriod: 1, Tag: "creation_fee=invalid-denom"},
+		{Authority: "gov", CreationFee: "", BidFee: "", ExtPeriod: 3650, Tag: "extended_period=maximum"},
+		{Authority: "gov", CreationFee: "", BidFee: "", ExtPeriod: 3651, Tag: "extended_period=above-maximum"},
+		{Authority: "gov", CreationFee: "", BidFee: "", ExtPeriod: 4294967295, Tag: "extended_period=max-uint32"},
 	} {
 		p.Kind = "update_params"
 		p.Budget = "probe"
